@@ -89,7 +89,7 @@ def CanFetch (s : Swarm) (a b i : Nat) (pa pb : Peer) : Prop :=
   (b, i) ∈ pa.reqs ∨
   ((pa.reqs.filter (·.1 = b)).length < s.cfg.pipeline ∧
     (b ∈ pa.conns ∨ (a ∉ pb.conns ∧ pa.conns.length < s.cfg.maxConns ∧ pb.conns.length < s.cfg.maxConns ∧
-      b ∉ pa.blacklist ∧ a ∉ pb.blacklist)))
+      b ∉ pa.blacklist)))
 
 /-- the request for piece `i` can be made outstanding without touching any torrent -/
 theorem make_request {s : Swarm} {a b i : Nat} {pa pb : Peer} (ha : s.peers[a]? = some pa) (hb : s.peers[b]? = some pb)
@@ -122,7 +122,7 @@ theorem make_request {s : Swarm} {a b i : Nat} {pa pb : Peer} (ha : s.peers[a]? 
         rw [if_pos hcond]
         refine ⟨_, setPeer_get_self ha1, ?_, htor, hp1, List.mem_cons_self ..⟩
         rw [setPeer_get_other hab]; exact hb1
-      rcases hconn with hc | ⟨hnb, hla, hlb, hbl1, hbl2⟩
+      rcases hconn with hc | ⟨hnb, hla, hlb, hbl1⟩
       · obtain ⟨pa2, h1, h2, h3, h4, h5⟩ := req s pa pb rfl ha hb rfl rfl hpa hc rfl
         exact ⟨[.request a b i], pa2, pb, by simp [SepSwarmAction], h1, h2, h3, h4, h5, rfl, hpb, rfl⟩
       · by_cases hc : b ∈ pa.conns
@@ -131,8 +131,8 @@ theorem make_request {s : Swarm} {a b i : Nat} {pa pb : Peer} (ha : s.peers[a]? 
         · -- connect first
           have hcond : a ≠ b ∧ pa.present = true ∧ pb.present = true ∧ b ∉ pa.conns ∧ a ∉ pb.conns ∧
               pa.conns.length < s.cfg.maxConns ∧ pb.conns.length < s.cfg.maxConns ∧
-              b ∉ pa.blacklist ∧ a ∉ pb.blacklist :=
-            ⟨hab, hpa, hpb, hc, hnb, hla, hlb, hbl1, hbl2⟩
+              b ∉ pa.blacklist :=
+            ⟨hab, hpa, hpb, hc, hnb, hla, hlb, hbl1⟩
           have hs1 : Swarm.step crc s (.connect a b) =
               setPeer (setPeer s a { pa with conns := b :: pa.conns }) b { pb with conns := a :: pb.conns } := by
             simp only [Swarm.step, ha, hb]
